@@ -95,6 +95,59 @@ def b_int(ip, args, kwargs, node):
     raise Unsupported(f"int() of {v!r}")
 
 
+def b_round(ip, args, kwargs, node):
+    """round(x) with one argument: nearest integer, ties to even"""
+    if len(args) != 1:
+        raise Unsupported("round with ndigits")
+    v = ip.unopt(args[0])
+    if isinstance(v, VInt) and v.kind == "int":
+        return v
+    if isinstance(v, VReal):
+        return VInt(round_half_even(v.term))
+    raise Unsupported(f"round() of {v!r}")
+
+
+def b_divmod(ip, args, kwargs, node):
+    """divmod(a, b) for ints, and for a real a with a positive integer constant b (floor division)"""
+    a, b = ip.unopt(args[0]), ip.unopt(args[1])
+    if isinstance(a, VInt) and isinstance(b, VInt) and a.kind == "int" and b.kind == "int":
+        if not ip.spec_mode and ip.st.branch(b.term == 0):
+            raise_("ZeroDivisionError")
+        return VTuple([VInt(a.term / b.term if False else z3.If(b.term > 0, a.term / b.term, -((-a.term) / b.term))),
+                       VInt(a.term - b.term * z3.If(b.term > 0, a.term / b.term, -((-a.term) / b.term)))])
+    if isinstance(a, VReal) and isinstance(b, VInt):
+        bt = z3.simplify(b.term)
+        if z3.is_int_value(bt) and bt.as_long() > 0:
+            q = z3.ToInt(a.term / bt.as_long())           # floor for a positive divisor
+            return VTuple([VReal(z3.ToReal(q)), VReal(a.term - z3.ToReal(q) * bt.as_long())])
+    raise Unsupported(f"divmod({a!r}, {b!r})")
+
+
+def _strip(ip, args, kwargs, node, left, right):
+    """s.strip / lstrip / rstrip(chars) for a constant set of characters: s = l ++ r ++ t with l, t made of those characters only
+    and r neither starting (left) nor ending (right) with one"""
+    s = args[0]
+    if len(args) < 2:
+        raise Unsupported("strip() of whitespace")
+    cs = args[1].concrete() if isinstance(args[1], VStr) else None
+    if not cs:
+        raise Unsupported("strip with a symbolic character set")
+    st = ip.st
+    st.uses_strings = True
+    only = z3.Star(z3.Union(*[z3.Re(c) for c in cs])) if len(cs) > 1 else z3.Star(z3.Re(cs))
+    r = st.fresh("stripped", z3.StringSort())
+    l_ = st.fresh("lead", z3.StringSort()) if left else z3.StringVal("")
+    t_ = st.fresh("trail", z3.StringSort()) if right else z3.StringVal("")
+    st.assume(s.term == z3.Concat(l_, r, t_))
+    if left:
+        st.assume(z3.InRe(l_, only))
+        st.assume(z3.And(*[z3.Not(z3.PrefixOf(z3.StringVal(c), r)) for c in cs]))
+    if right:
+        st.assume(z3.InRe(t_, only))
+        st.assume(z3.And(*[z3.Not(z3.SuffixOf(z3.StringVal(c), r)) for c in cs]))
+    return VStr(r)
+
+
 def b_ceil(ip, args, kwargs, node):
     v = ip.unopt(args[0])
     if isinstance(v, VInt) and v.kind == "int":
@@ -774,6 +827,8 @@ def build_lib() -> dict:
         lib[n] = VBuiltin(n, f)
     lib["Dict"] = VBuiltin("dict", b_dict)
     lib["issubclass"] = VBuiltin("issubclass", b_issubclass)
+    lib["round"] = VBuiltin("round", b_round)
+    lib["divmod"] = VBuiltin("divmod", b_divmod)
     lib["timedelta"] = VBuiltin("timedelta", ctor_timedelta)
     lib["datetime"] = VModule("datetime", {
         "now": VBuiltin("datetime.now", dt_now),
@@ -832,6 +887,9 @@ def build_lib() -> dict:
         ("str", "startswith"): VBuiltin("str.startswith", str_startswith),
         ("str", "find"): VBuiltin("str.find", str_find),
         ("str", "split"): VBuiltin("str.split", str_split),
+        ("str", "rstrip"): VBuiltin("str.rstrip", lambda ip, a, k, n: _strip(ip, a, k, n, False, True)),
+        ("str", "lstrip"): VBuiltin("str.lstrip", lambda ip, a, k, n: _strip(ip, a, k, n, True, False)),
+        ("str", "strip"): VBuiltin("str.strip", lambda ip, a, k, n: _strip(ip, a, k, n, True, True)),
         ("ptask", "result"): VBuiltin("Task.result", ptask_result),
         ("ptask", "cancel"): VBuiltin("Task.cancel", ptask_cancel),
         ("ptask", "done"): VBuiltin("Task.done", ptask_done),
